@@ -66,7 +66,8 @@ class StaticCheck:
 
     def run(self):
         t0 = time.time()
-        res = {"target": self.id, "function": "(static)", "status": "undecided", "obligations": [], "unsupported": [], "note": self.note}
+        res = {"target": self.id, "function": "(static)", "status": "undecided", "obligations": [], "unsupported": [], "note": self.note,
+               "bounded": getattr(self, "bounded", None)}
         try:
             obs = self.fn()
             for o in obs:
@@ -286,6 +287,10 @@ def check_property(prop, targets, *, tier="quick", assumptions=(), trusted_base=
                 confirmed = bool(out.get("confirmed"))
             except Exception as e:
                 rp["native_replay"] = {"confirmed": False, "error": repr(e), "trace": traceback.format_exc()[-600:]}
+        elif o.get("solver") == "exhaustive-native":
+            # bounded native enumeration: the failing inputs are in `detail`, observed on the real code
+            confirmed = True
+            rp["native_replay"] = {"confirmed": True, "note": "found by running the real function; failing inputs in detail"}
         elif o.get("solver") == "computation":
             # static checks are decided on the real source itself: the witness site is the input
             confirmed = bool(o.get("confirmed", True))
